@@ -10,6 +10,7 @@ Streams:
 import re
 import engine as E
 import pfam, sqlgen
+import anfam
 
 KINDS = ("all", "select", "join", "where", "group", "having", "order")
 
@@ -162,7 +163,7 @@ class CGen:
             if re.fullmatch(r"[A-Za-z_][A-Za-z0-9_]*", victim):
                 i = self.ch([j for j, it in enumerate(lv["items"]) if it["alias"]])
                 old = lv["items"][i]["alias"]
-                if not any(old == e[1][0][2] for e in lv["group"] + lv["order"] if e[0] == "refs" and len(e[1]) == 1) and ("col", None, old) not in lv["having"]:
+                if not any(e[1][0][0] == "col" and old == e[1][0][2] for e in lv["group"] + lv["order"] if e[0] == "refs" and len(e[1]) == 1) and ("col", None, old) not in lv["having"]:
                     texts[i] = texts[i][:-len(old)] + victim
                     lv["items"][i]["alias"] = victim
                     self.tags.add("alias-clash")
@@ -326,8 +327,8 @@ def check_case(ctx, c, answers, how):
 
 
 def run(ctx):
-    n_known = 1500 if ctx.quick else 40000
-    n_gen = 700 if ctx.quick else 20000
+    n_known = 1500 if ctx.quick else 25000
+    n_gen = 700 if ctx.quick else 12000
     ctx.cov["rule"] = ("(1) correspondence of CurrentUsedQuoteColumn, the six Current<Clause>ClauseUsedQuoteColumn and CurrentColumnSelectToDirectQuoteHash between the Lean model and the "
                        "real classes on the first statement of general generated scripts (all statement kinds, Hive clauses, rejected texts) and on the dedicated queries; "
                        "(2) oracle on the implementation: a dedicated generator writes single-level and nested queries with known column placement per clause — bare / quoted / "
@@ -343,7 +344,7 @@ def run(ctx):
     for i in range(n_known):
         cases.append(known_case(r))
     reqs = [req(k, c["dialect"], c["text"]) for c in cases for k in KINDS + ("hash",)]
-    res, bad = ctx.corr(reqs, stream="known", nontrivial=lambda q, a: a.startswith("OK") and a != "OK L[]")
+    res, bad = anfam.corr(ctx, reqs, stream="known", nontrivial=lambda q, a: a.startswith("OK") and a != "OK L[]")
     m = len(KINDS) + 1
     for i, c in enumerate(cases):
         for t in c["tags"]:
@@ -376,7 +377,7 @@ def run(ctx):
         d = r.choice(pfam.MAIN_DIALECTS)
         g = sqlgen.Gen(r, d, wild=False)
         gen.append((d, g.query() if r.chance(0.85) else g.script()))
-    ctx.corr([req(k, d, t) for d, t in gen for k in KINDS + ("hash",)], stream="general", nontrivial=lambda q, a: a.startswith("OK") and a != "OK L[]")
+    anfam.corr(ctx, [req(k, d, t) for d, t in gen for k in KINDS + ("hash",)], stream="general", nontrivial=lambda q, a: a.startswith("OK") and a != "OK L[]")
     # -- known findings --------------------------------------------------------------------------------------------
     for f in ctx.findings:
         if f.get("status") == "finding":
